@@ -151,6 +151,14 @@ def d24_shape(spec):
     return re.search(r',[bcoxX]$', spec) is not None or re.search(r'[ +\-#].*c$', spec) is not None
 
 
+def live_flat(s):
+    """'flat' / 'compound' / 'err': the property's notion of a flat string, read off the live parser's fields"""
+    fs = fields_of(s)
+    if fs is None:
+        return 'err'
+    return 'flat' if is_flat(fs) else 'compound'
+
+
 def oracle(s):
     """None or (kind, description, finding)"""
     r = impl(s)
